@@ -2,7 +2,8 @@
 import numpy as np
 
 from pymbolic.mapper.stringifier import (
-    PREC_CALL, PREC_LOGICAL_OR, PREC_NONE, PREC_PRODUCT, StringifyMapper)
+    PREC_CALL, PREC_LOGICAL_OR, PREC_NONE, PREC_POWER, PREC_PRODUCT,
+    StringifyMapper)
 
 
 __copyright__ = "Copyright (C) 2014 Matt Wala"
@@ -106,6 +107,15 @@ class FortranExpressionMapper(StringifyMapper):
         return self.parenthesize_if_needed(
                 self.join_rec(" * ", expr.children, PREC_PRODUCT, *args, **kwargs),
                 enclosing_prec, PREC_PRODUCT)
+
+    def map_power(self, expr, enclosing_prec, *args, **kwargs):
+        # "**" associates to the right in the target language, so a base that
+        # is itself a power needs parentheses: (a**b)**c is not a**b**c.
+        return self.parenthesize_if_needed(
+                self.format("%s**%s",
+                    self.rec(expr.base, PREC_POWER + 1, *args, **kwargs),
+                    self.rec(expr.exponent, PREC_POWER, *args, **kwargs)),
+                enclosing_prec, PREC_POWER)
 
     def map_logical_not(self, expr, enclosing_prec):
         from pymbolic.mapper.stringifier import PREC_UNARY
@@ -213,6 +223,15 @@ class PythonExpressionMapper(StringifyMapper):
         return self.map_generic_call(
                 expr.function, expr.parameters,
                 expr.kw_parameters)
+
+    def map_power(self, expr, enclosing_prec, *args, **kwargs):
+        # "**" associates to the right in the target language, so a base that
+        # is itself a power needs parentheses: (a**b)**c is not a**b**c.
+        return self.parenthesize_if_needed(
+                self.format("%s**%s",
+                    self.rec(expr.base, PREC_POWER + 1, *args, **kwargs),
+                    self.rec(expr.exponent, PREC_POWER, *args, **kwargs)),
+                enclosing_prec, PREC_POWER)
 
     def map_if(self, expr, enclosing_prec):
         from dagrt.expression import PREC_IFTHENELSE
